@@ -4,6 +4,7 @@ import vlib
 import langcheck
 
 LEVEL = "exploration"
+COMPILES_PROGRAMS = True      # check reports mlang.Compile's long-lived-compiler comparison (vlib.report_compiler_reuse)
 META = {
     "text": "Programs are TLC-generated ASTs (spec/MtailGen.tla, profile fmt: trees that need parentheses at every precedence level, hidden / "
             "renamed / limited metrics, histograms with small and negative boundaries, string literals with quotes and backslashes, pattern "
